@@ -187,6 +187,13 @@ def hardstate(cx):
             return l[2] is (l[1][1] == "Ne")
         okl, nl = gc.after_edge_must_pass(lambda lits: any(nondefault(l) for l in lits), lambda b, c=c: b == c.block)
         cx.check(okl and nl >= 1, cx.site_key(c, "reload"), "%s reloads term, vote and commit whenever the stored HardState differs from the default one" % fn_name(c.fn), c)
+        # ... and that test is made on every path on which the constructor succeeds (no "nothing to recover" shortcut around it)
+        tested = {gc.nodes[n_][0] for n_ in range(len(gc.nodes)) for _, ls_ in gc.edges[n_] or [] if any(nondefault(l) or nondefault((l[0], l[1], not l[2]) if l[0] == "is" and isinstance(l[2], bool) else l) for l in ls_)}
+        oks = [(bi, si) for bi in sorted(cx.prog.A(c.fn).reach) for si, st in enumerate(c.fn.body.blocks[bi]["stmts"])
+               if st["k"] == "assign" and st["place"] == {"l": 0, "p": []} and st["rv"].get("agg") == "adt" and st["rv"].get("adt") == "core::result::Result" and st["rv"].get("variant") == "Ok"]
+        if oks and not gc.truncated:
+            cx.check(bool(tested) and all(gc.dominated_by_block(at, lambda b: b in tested) for at in oks), cx.site_key(c, "reload:always"),
+                     "%s compares the stored HardState with the default one on every path on which it succeeds" % fn_name(c.fn), c)
     # ready(): hs handed out iff different from prev_hs; commit_ready stores it
     rd = cx.fn("RawNode::ready")
     g = cx.pg(rd)
@@ -458,3 +465,39 @@ def advance_apply_order(cx):
             continue
         ok = is_f(a, "RawNode.commit_since_index") or a[0] == "param"
         cx.check(ok, cx.site_key(c, "applied-source"), "RawNode reports as applied either commit_since_index (the last index handed out) or the index the application passed -- never the commit index itself (found %s)" % show(a)[:80], c)
+
+
+@obligation("READY.light_commit", ["C07", "C01"], floor=3, kind="guard + value shape + pairing",
+            why="a commit index that moved between ready() and advance() (an applied conf change shrinking the quorum) must be handed out in the LightReady: it is the only hand-off of it, prev_hs is updated at the same time")
+def light_commit(cx):
+    aa = cx.fn("RawNode::advance_append")
+    g = cx.pg(aa)
+    a = cx.prog.A(aa)
+
+    def is_commit(e):
+        return is_f(e, "RaftLog.committed") or (e[0] == "field" and e[2] == "HardState.commit" and e[1][0] == "call" and e[1][1].endswith("Raft::hard_state"))
+    # the sites that build `Some(<commit index>)`: stored into LightReady.commit_index directly, or bound first and put
+    # into the LightReady literal
+    some = []
+    for bi in sorted(a.reach):
+        for si, st in enumerate(aa.body.blocks[bi]["stmts"]):
+            if st["k"] == "assign" and st["rv"].get("agg") == "adt" and st["rv"].get("adt") == "core::option::Option" and st["rv"].get("variant") == "Some":
+                v = a.expr_rvalue(st["rv"], (bi, si))
+                if v[0] == "adt" and v[2] and is_commit(v[2][0][1]):
+                    some.append((Site(aa, bi, si, "write", {"stmt": st}), v[2][0][1]))
+    cx.check(len(some) >= 1, "site", "advance_append stores Some(commit) into LightReady.commit_index")
+
+    def moved(l):
+        # prev_hs.commit < current commit
+        return l[0] == "is" and l[2] is True and l[1][0] == "bin" and l[1][1] == "Lt" and l[1][2][0] == "field" and l[1][2][2] == "HardState.commit" \
+            and is_f(l[1][2][1], "RawNode.prev_hs") and is_commit(l[1][3])
+    for s, x in some:
+        key = cx.site_key(s, "write:LightReady.commit_index")
+        cx.check(is_commit(x), key + ":value", "the index handed out is the node's current commit index (found %s)" % show(x)[:80], s)
+        require(cx, s, key + ":guard", "the commit index is handed out when it is above prev_hs.commit -- the last value the application was given", moved, kill=False)
+    blocks = {s.block for s, _ in some}
+    ok, ne = g.after_edge_must_pass(lambda lits: any(moved(l) for l in lits), lambda b: b in blocks)
+    cx.check(ok and ne >= 1, "converse", "whenever the commit index is above prev_hs.commit, advance_append hands it out")
+    pw = [s for s in cx.prog.writes.get("HardState.commit", []) if s.fn is aa and "stmt" in s.data]
+    okp = bool(pw) and all(is_commit(write_value(cx, s)) for s in pw)
+    cx.check(okp, "prev_hs", "prev_hs.commit follows the commit index handed out")
